@@ -82,7 +82,8 @@ pub struct IndexProbe {
 
 impl IndexProbe {
     pub fn new(length: usize, nbr_sincs: usize) -> Self {
-        assert!(length % 8 == 0, "Sinc length must be a multiple of 8");
+        // any length: new_with_interpolator accepts custom interpolators of odd length too
+        assert!(length >= 2, "probe length must be at least 2");
         IndexProbe { length, nbr_sincs }
     }
 }
